@@ -70,7 +70,11 @@ SInvoke(c, k, v)  == [op |-> "invoke", c |-> c, k |-> k, v |-> v]   \* Invoke(kw
 NoDefault         == [has |-> FALSE, v |-> VNone, s |-> <<>>]
 Default(v)        == [has |-> TRUE, v |-> v, s |-> <<>>]
 DefaultArgs(c)    == [has |-> TRUE, v |-> VNone, s |-> <<SArgList(c)>>]
-Call(t, sc, sid, spec) == [t |-> t, sc |-> sc, sid |-> sid, spec |-> spec]
+\* via = "glom": glom.glom(t, spec, scope=sc) (default registry);  via = "glommer": G.glom(t, spec)
+\* through ONE shared Glommer instance G (its own registry: module-level registrations do not apply)
+Call(t, sc, sid, spec) == [t |-> t, sc |-> sc, sid |-> sid, spec |-> spec, via |-> "glom"]
+GCall(t, sid, spec)    == [t |-> t, sc |-> <<>>, sid |-> sid, spec |-> spec, via |-> "glommer"]
+RegsFor(via, regs)     == IF via = "glommer" THEN <<>> ELSE regs
 
 \* ---- errors, outcomes, observations ---------------------------------------------------
 \* cls: most specific well-known class; ge: is it (already) a GlomError; at: path of the spec
@@ -83,16 +87,38 @@ Good(v, obs)  == Res(TRUE, v, NoErr, obs, <<>>)
 Bad(e, obs)   == Res(FALSE, VNone, e, obs, <<>>)
 Unmodelled(at) == Err("UNMODELLED", FALSE, at, <<>>)
 
-\* what a probe sees when it is invoked: its own target, the mode in force, the user
-\* bindings visible in its scope, the accumulator it is feeding, the nesting depth
+\* what a probe sees when it is invoked: its own target, the root target of its call (S[ROOT][T]),
+\* the mode in force, the user bindings visible in its scope, the accumulator it is feeding,
+\* the nesting depth
 NameOrder == <<"k", "x", "y">>
 RECURSIVE CanonFrom(_, _)
 CanonFrom(vis, i) ==
   IF i > Len(NameOrder) THEN <<>>
   ELSE (IF HasKey(vis, NameOrder[i]) THEN << <<NameOrder[i], Lookup(vis, NameOrder[i])>> >> ELSE <<>>)
        \o CanonFrom(vis, i + 1)
-MkObs(at, d, t, mode, vis, acc) ==
-  [at |-> at, d |-> d, t |-> t, mode |-> mode, names |-> CanonFrom(vis, 1), acc |-> acc]
+MkObs(at, d, t, rt, mode, vis, acc) ==
+  [at |-> at, d |-> d, t |-> t, rt |-> rt, mode |-> mode, names |-> CanonFrom(vis, 1), acc |-> acc]
+
+\* equality of values / observations that looks at the kind first (TLC refuses to compare
+\* structures of different shape, which is exactly what a wrong outcome may be)
+RECURSIVE VEq(_, _)
+VEq(a, b) ==
+  IF a.k # b.k THEN FALSE
+  ELSE CASE a.k = "int" -> a.i = b.i
+         [] a.k = "str" -> a.s = b.s
+         [] a.k = "none" -> TRUE
+         [] a.k \in {"list", "tuple"} -> Len(a.v) = Len(b.v) /\ \A i \in 1..Len(a.v) : VEq(a.v[i], b.v[i])
+         [] a.k \in {"dict", "obj"} ->
+              /\ (a.k = "obj" => a.cls = b.cls) /\ Len(a.v) = Len(b.v)
+              /\ \A i \in 1..Len(a.v) : VEq(a.v[i][1], b.v[i][1]) /\ VEq(a.v[i][2], b.v[i][2])
+         [] a.k = "opaque" -> a.s = b.s
+         [] OTHER -> FALSE
+VSeqEq(a, b) == Len(a) = Len(b) /\ \A i \in 1..Len(a) : VEq(a[i], b[i])
+ObsEq(a, b) ==
+  /\ a.at = b.at /\ a.d = b.d /\ a.mode = b.mode /\ VEq(a.t, b.t) /\ VEq(a.rt, b.rt) /\ VSeqEq(a.acc, b.acc)
+  /\ Len(a.names) = Len(b.names)
+  /\ \A i \in 1..Len(a.names) : a.names[i][1] = b.names[i][1] /\ VEq(a.names[i][2], b.names[i][2])
+ObsSeqEq(a, b) == Len(a) = Len(b) /\ \A i \in 1..Len(a) : ObsEq(a[i], b[i])
 
 RECURSIVE Merge(_, _)
 Merge(vis, cb) == IF cb = <<>> THEN vis ELSE Merge(SetKey(vis, cb[1][1], cb[1][2]), Tail(cb))
@@ -201,13 +227,13 @@ Ev(n, at, t, env) ==
               IF r.ok THEN Good(r.v, <<>>)
               ELSE IF r.exc = "UNMODELLED" THEN Bad(Unmodelled(at), <<>>) ELSE Bad(PAE(at), <<>>)
     [] n.op \in {"probe", "opcall"} ->
-         LET o == IF n.op = "probe" THEN MkObs(at, env.d, t, env.mode, env.vis, env.acc)
-                  ELSE MkObs(at, env.d, t, "-", <<>>, env.acc)
+         LET o == IF n.op = "probe" THEN MkObs(at, env.d, t, env.rt, env.mode, env.vis, env.acc)
+                  ELSE MkObs(at, env.d, t, VNone, "-", <<>>, env.acc)
              r == ApplyF(n.f, t) IN
          IF r.ok THEN Good(r.v, <<o>>) ELSE Bad(Err(r.exc, FALSE, at, <<>>), <<o>>)
     [] n.op = "nest" ->
-         LET o == MkObs(at, env.d, t, env.mode, env.vis, env.acc)
-             r == EvCall(n.call, env.star, env.regs, env.d + 1) IN
+         LET o == MkObs(at, env.d, t, env.rt, env.mode, env.vis, env.acc)
+             r == EvCall(n.call, env.star, env.mregs, env.d + 1) IN
          IF r.ok THEN Good(r.v, <<o>> \o r.obs)
          ELSE Bad(Err(r.e.cls, TRUE, at, <<r.e>>), <<o>> \o r.obs)
     [] n.op = "tuple" ->
@@ -285,7 +311,9 @@ EvAcc(n, cat, items, i, env, acc, obs, at) ==
 
 Outcome(ok, v, e, obs) == [ok |-> ok, v |-> v, e |-> e, obs |-> obs]
 EvCall(call, st, regs, d) ==
-  LET r == Ev(call.spec, <<>>, call.t, [star |-> st, regs |-> regs, mode |-> "AUTO", vis |-> call.sc, d |-> d, acc |-> <<>>]) IN
+  \* regs: the module-level registrations; the call sees them unless it goes through the Glommer
+  LET r == Ev(call.spec, <<>>, call.t, [star |-> st, regs |-> RegsFor(call.via, regs), mregs |-> regs, mode |-> "AUTO",
+                                        vis |-> call.sc, d |-> d, acc |-> <<>>, rt |-> call.t]) IN
   Outcome(r.ok, r.v, IF r.ok THEN NoErr ELSE [r.e EXCEPT !.ge = TRUE], r.obs)
 Iso(call, st, regs) == EvCall(call, st, regs, 0)
 
@@ -308,7 +336,7 @@ Frame(op, lvl, at, t, mode, vis, av, sid) ==
    sv |-> ""]                \* (mutants only) saved module-level mode
 
 NoPend == [text |-> "", segs |-> <<>>, cstar |-> TRUE, store |-> FALSE, parse |-> <<>>,
-           ty |-> "", op |-> "", slot |-> "", h |-> ""]
+           ty |-> "", op |-> "", slot |-> "", h |-> "", reg |-> "glom"]
 IdleProc == [st |-> "idle", stack |-> <<>>, ctl |-> "eval", v |-> VNone, e |-> NoErr, b |-> <<>>,
              obs |-> <<>>, stop |-> "", pend |-> NoPend, call |-> 0, star0 |-> TRUE, regs0 |-> <<>>,
              out |-> Outcome(TRUE, VNone, NoErr, <<>>), nc |-> 0,
@@ -339,7 +367,9 @@ NodeOf(P, f) == IF f.op = "call" THEN [op |-> "call", call |-> P.calls[f.lvl]]
                 ELSE NodeAt(P.calls[f.lvl].spec, f.at)
 Child(P, f, cn, k, t, vis, av) == Push(SetTop(P, f), Frame(cn.op, f.lvl, Sub(f.at, k), t, f.mode, vis, av, f.sid))
 Depth(P) == Len(P.calls) - 1
-NeedHandler(P, f, ty, op, slot) == Stop(P, f, "tcheck", [NoPend EXCEPT !.ty = ty, !.op = op, !.slot = slot])
+\* scope[TargetRegistry].get_handler(op, obj): the registry of the call the frame belongs to
+NeedHandler(P, f, ty, op, slot) ==
+  Stop(P, f, "tcheck", [NoPend EXCEPT !.ty = ty, !.op = op, !.slot = slot, !.reg = P.calls[f.lvl].via])
 
 \* accumulator of an acc frame: private (correct), in a module-level tree keyed by the spec
 \* node (mutant "globalacc", Group only), or kept on the spec object (mutant "acconspec", Fold only)
@@ -379,8 +409,8 @@ MProbe(P, G, f, n) ==
   CASE f.ph = 0 ->                             \* invoked: observe, then block in the user code (yield point)
          LET par == P.stack[Len(P.stack) - 1]
              av == IF par.op = "acc" THEN AccRead(G, par, NodeOf(P, par).kind) ELSE <<>>
-             o == IF n.op = "opcall" THEN MkObs(f.at, Depth(P), f.t, "-", <<>>, av)
-                  ELSE MkObs(f.at, Depth(P), f.t, f.dm, f.vis, av) IN
+             o == IF n.op = "opcall" THEN MkObs(f.at, Depth(P), f.t, VNone, "-", <<>>, av)
+                  ELSE MkObs(f.at, Depth(P), f.t, P.calls[f.lvl].t, f.dm, f.vis, av) IN
          X([Stop(P, [f EXCEPT !.ph = 1], "yield", NoPend) EXCEPT !.obs = Append(@, o)], G)
     [] f.ph = 1 /\ n.op = "nest" ->          \* the user code calls glom() re-entrantly
          X([Push(SetTop(P, [f EXCEPT !.ph = 2]),
@@ -552,9 +582,11 @@ RunPrivate(x) == IF x.p.st # "run" \/ x.p.stop # "" THEN x ELSE RunPrivate(Micro
 CFind(cache, text) == LET I == {i \in 1..Len(cache) : cache[i].text = text} IN IF I = {} THEN 0 ELSE CHOOSE i \in I : TRUE
 CEntry(text, segs, parse, partial) == [text |-> text, segs |-> segs, parse |-> parse, partial |-> partial]
 CSet(cache, e) == IF CFind(cache, e.text) = 0 THEN Append(cache, e) ELSE [cache EXCEPT ![CFind(cache, e.text)] = e]
-TFind(tc, ty, op) == LET I == {i \in 1..Len(tc) : tc[i].ty = ty /\ tc[i].op = op} IN IF I = {} THEN 0 ELSE CHOOSE i \in I : TRUE
-TSet(tc, ty, op, h) == IF TFind(tc, ty, op) = 0 THEN Append(tc, [ty |-> ty, op |-> op, h |-> h])
-                       ELSE [tc EXCEPT ![TFind(tc, ty, op)].h = h]
+\* one memo per registry (reg = "glom": the default registry, "glommer": the shared Glommer's)
+TFind(tc, ty, op, reg) == LET I == {i \in 1..Len(tc) : tc[i].ty = ty /\ tc[i].op = op /\ tc[i].reg = reg} IN
+                          IF I = {} THEN 0 ELSE CHOOSE i \in I : TRUE
+TSet(tc, ty, op, reg, h) == IF TFind(tc, ty, op, reg) = 0 THEN Append(tc, [ty |-> ty, op |-> op, reg |-> reg, h |-> h])
+                            ELSE [tc EXCEPT ![TFind(tc, ty, op, reg)].h = h]
 
 \* cls._CACHE[PATH_STAR]   (mutant "nostarkey": one dict for both settings)
 PCsel(S, s) == IF Mutant = "nostarkey" \/ s THEN S.pc.t ELSE S.pc.f
@@ -601,19 +633,19 @@ PFetch(S, p) ==
 \* get_handler:  cache_key not in self._type_cache
 TCheck(S, p) ==
   LET P == S.procs[p] IN
-  [S EXCEPT !.procs[p].stop = IF TFind(S.tc, P.pend.ty, P.pend.op) # 0 THEN "tfetch" ELSE "tcompute"]
+  [S EXCEPT !.procs[p].stop = IF TFind(S.tc, P.pend.ty, P.pend.op, P.pend.reg) # 0 THEN "tfetch" ELSE "tcompute"]
 \* the lookup in the type map / type tree; no handler: UnregisteredTarget is raised and nothing is memoized
 TCompute(S, p) ==
-  LET P == S.procs[p]  h == Resolve(S.regs, P.pend.ty, P.pend.op) IN
+  LET P == S.procs[p]  h == Resolve(RegsFor(P.pend.reg, S.regs), P.pend.ty, P.pend.op) IN
   IF h = "NONE" THEN DeliverHandler(S, p, P, "NONE")
   ELSE [S EXCEPT !.procs[p].stop = "twrite", !.procs[p].pend.h = h]
 \* self._type_cache[cache_key] = ret
 TWrite(S, p) ==
   LET P == S.procs[p] IN
-  [S EXCEPT !.tc = TSet(@, P.pend.ty, P.pend.op, P.pend.h), !.procs[p].stop = "tfetch"]
+  [S EXCEPT !.tc = TSet(@, P.pend.ty, P.pend.op, P.pend.reg, P.pend.h), !.procs[p].stop = "tfetch"]
 \* return self._type_cache[cache_key]
 TFetch(S, p) ==
-  LET P == S.procs[p]  i == TFind(S.tc, P.pend.ty, P.pend.op) IN
+  LET P == S.procs[p]  i == TFind(S.tc, P.pend.ty, P.pend.op, P.pend.reg) IN
   IF i = 0 THEN DeliverError(S, p, P, "KeyError") ELSE DeliverHandler(S, p, P, S.tc[i].h)
 \* the user callable returns / goes on
 Resume(S, p) == Continue(S, p, S.procs[p])
@@ -662,7 +694,8 @@ EndEvents(S0, S1) ==      \* calls that finished in this step, with the predicti
   ELSE LET p == CHOOSE q \in done : TRUE IN
        << [e |-> "end", p |-> p, c |-> S1.procs[p].call, out |-> S1.procs[p].out,
            pct |-> Texts(S1.pc.t), pcf |-> Texts(S1.pc.f),
-           tck |-> [i \in 1..Len(S1.tc) |-> <<S1.tc[i].ty, S1.tc[i].op, S1.tc[i].h>>], nwarn |-> S1.nwarn] >>
+           tck |-> LET d == SelectSeq(S1.tc, LAMBDA e : e.reg = "glom") IN      \* the default registry's memo
+                   [i \in 1..Len(d) |-> <<d[i].ty, d[i].op, d[i].h>>], nwarn |-> S1.nwarn] >>
 Log(ev, S0, S1) == hist' = IF RecHist THEN hist \o <<ev>> \o EndEvents(S0, S1) ELSE hist
 Quiescent == \A p \in Procs : procs[p].st # "run"
 
@@ -703,7 +736,7 @@ ToggleStar ==
 Register(r) ==
   /\ Len(regs) < MaxRegs /\ (RegisterAnytime \/ Quiescent) /\ \A i \in 1..Len(regs) : regs[i] # r
   /\ regs' = Append(regs, r)
-  /\ typeCache' = IF Mutant = "noreset" THEN typeCache ELSE <<>>
+  /\ typeCache' = IF Mutant = "noreset" THEN typeCache ELSE SelectSeq(typeCache, LAMBDA e : e.reg # "glom")
   /\ hist' = IF RecHist THEN Append(hist, [e |-> "reg", r |-> r]) ELSE hist
   /\ UNCHANGED <<pathCache, star, starWarned, nwarn, glob, world, procs, ntog>>
 
@@ -719,10 +752,11 @@ Spec == Init /\ [][Next]_vars
 \* LAWS (stated on outcomes and observations only; they do not mention frames or caches)
 \* =====================================================================================
 Expected(p) == Iso(CallOf(procs[p].call), procs[p].star0, procs[p].regs0)
-IsPrefix(a, b) == Len(a) <= Len(b) /\ SubSeq(b, 1, Len(a)) = a
+IsPrefix(a, b) == Len(a) <= Len(b) /\ ObsSeqEq(SubSeq(b, 1, Len(a)), a)
+OutcomeEq(a, b) == a.ok = b.ok /\ VEq(a.v, b.v) /\ a.e = b.e /\ ObsSeqEq(a.obs, b.obs)
 \* C06 (i) / C20: a finished call has exactly the outcome (value, or error class with its
 \* origin and the nested error chain) and made exactly the observations of the isolated call
-NonInterference == \A p \in Procs : procs[p].st = "done" => procs[p].out = Expected(p)
+NonInterference == \A p \in Procs : procs[p].st = "done" => OutcomeEq(procs[p].out, Expected(p))
 \* ... and at every moment what a running call has observed so far is what it observes alone
 ObservesOnlyItself == \A p \in Procs : procs[p].st = "run" => IsPrefix(procs[p].obs, Expected(p).obs)
 \* C06 (ii): targets, caller scope mappings and spec values never change
@@ -737,7 +771,7 @@ PathCacheCoherent ==
   \A s \in BOOLEAN : LET cache == IF s THEN pathCache.t ELSE pathCache.f IN
     \A i \in 1..Len(cache) : ~cache[i].partial /\ cache[i].parse = Parse(cache[i].segs, s)
 TypeCacheCoherent ==
-  \A i \in 1..Len(typeCache) : typeCache[i].h = Resolve(regs, typeCache[i].ty, typeCache[i].op)
+  \A i \in 1..Len(typeCache) : typeCache[i].h = Resolve(RegsFor(typeCache[i].reg, regs), typeCache[i].ty, typeCache[i].op)
 PathCacheBounded ==
   Len(pathCache.t) <= MaxCache + NProcs /\ Len(pathCache.f) <= MaxCache + NProcs
 
@@ -757,9 +791,9 @@ TraceEvent(T, ev, mc, slack) ==
          LET want == Strip(Iso(ev.call, T.star, T.regs))  o == ev.out IN
          << IF want.cls = "UNMODELLED" THEN "skip_unmodelled"
             ELSE IF want.ok # o.ok THEN "outcome"
-            ELSE IF want.ok /\ want.v # o.v THEN "value"
+            ELSE IF want.ok /\ ~VEq(want.v, o.v) THEN "value"
             ELSE IF ~want.ok /\ want.cls # o.cls THEN "errclass"
-            ELSE IF want.obs # o.obs THEN "observations"
+            ELSE IF ~ObsSeqEq(want.obs, o.obs) THEN "observations"
             ELSE "", T >>
     [] ev.e = "warn"   -> <<IF T.warned \/ T.star THEN "warned_again" ELSE "", [T EXCEPT !.warned = TRUE]>>
     [] ev.e = "has"    -> <<IF ev.star # T.star THEN "pc_wrong_dict"
@@ -774,10 +808,10 @@ TraceEvent(T, ev, mc, slack) ==
     [] ev.e = "get"    ->
          LET cache == TCache(T, ev.star)  i == CFind(cache, ev.text) IN
          << IF i = 0 THEN "pc_get_missing" ELSE IF cache[i].parse # ev.parse THEN "pc_get_value" ELSE "", T >>
-    [] ev.e = "thas"   -> <<IF ev.res # (TFind(T.tc, ev.ty, ev.op) # 0) THEN "tc_has" ELSE "", T>>
+    [] ev.e = "thas"   -> <<IF ev.res # (TFind(T.tc, ev.ty, ev.op, "glom") # 0) THEN "tc_has" ELSE "", T>>
     [] ev.e = "tset"   -> <<IF ev.h # Resolve(T.regs, ev.ty, ev.op) THEN "tc_set_value" ELSE "",
-                            [T EXCEPT !.tc = TSet(@, ev.ty, ev.op, ev.h)]>>
-    [] ev.e = "tget"   -> LET i == TFind(T.tc, ev.ty, ev.op) IN
+                            [T EXCEPT !.tc = TSet(@, ev.ty, ev.op, "glom", ev.h)]>>
+    [] ev.e = "tget"   -> LET i == TFind(T.tc, ev.ty, ev.op, "glom") IN
                           <<IF i = 0 THEN "tc_get_missing" ELSE IF T.tc[i].h # ev.h THEN "tc_get_value" ELSE "", T>>
     [] OTHER -> <<"unknown_event", T>>
 \* row = [events, maxcache (Path._MAX_CACHE of the session), slack (threads - 1: stores that may
